@@ -24,7 +24,7 @@ namespace SA.Codec
 /-- MSB-first `n`-bit representation of `x mod 2^n` -/
 def toBits : Nat → Nat → List Bool
   | 0, _ => []
-  | n + 1, x => (x / 2 ^ n % 2 == 1) :: toBits n x
+  | n + 1, x => x.testBit n :: toBits n x
 
 /-- value of an MSB-first bit list -/
 def fromBits : List Bool → Nat
@@ -40,13 +40,12 @@ def bytesToBits (bs : List Nat) : List Bool := bs.flatMap (toBits 8)
 
 def digitsToBits (k : Nat) (ds : List Nat) : List Bool := ds.flatMap (toBits k)
 
-/-- number of `k`-bit digits needed for `n` bytes -/
-def radixLen (k n : Nat) : Nat := (8 * n + k - 1) / k
+/-- a bit string as `k`-bit digits, the last one zero-padded: ⌈len/k⌉ digits -/
+def digitsOf (k : Nat) (bits : List Bool) : List Nat :=
+  takeDigits k ((bits.length + k - 1) / k) (bits ++ List.replicate (k - 1) false)
 
 /-- generic radix-2^k encoder: bytes -> MSB-first bits -> zero-pad to a multiple of k -> k-bit digits -/
-def radixDigits (k : Nat) (bs : List Nat) : List Nat :=
-  let m := radixLen k bs.length
-  takeDigits k m (bytesToBits bs ++ List.replicate (k * m - 8 * bs.length) false)
+def radixDigits (k : Nat) (bs : List Nat) : List Nat := digitsOf k (bytesToBits bs)
 
 /-- generic radix-2^k decoder: digits -> bits -> the first `n` bytes -/
 def radixBytes (k n : Nat) (ds : List Nat) : List Nat :=
